@@ -102,7 +102,9 @@ AllGroups ==
   {Grp("vec", op, R)   : op \in SeqSet(VecOps), R \in WritableTypes} \cup
   {Grp("conv", "-", T) : T \in AllTypes} \cup
   {Grp("new", "-", T)  : T \in AllTypes}
-Groups == IF Part = "all" THEN AllGroups ELSE {g \in AllGroups : g.c = Part}
+\* the group "contract" evaluates ContractOK (below): inside an action, because TLC caches operator
+\* arguments only while it evaluates a next-state relation (the long division is exponential without)
+Groups == (IF Part = "all" THEN AllGroups ELSE {g \in AllGroups : g.c = Part}) \cup {Grp("contract", "-", "-")}
 
 (* ----------------------------------------------------------------- cases *)
 Arg(T, v) == [t |-> T, v |-> v]
@@ -290,29 +292,6 @@ EmitNew(T2) ==
   /\ Emit(Case("new", "NullScalar", "", <<>>, VZero, IF T2 \in WritableTypes THEN VZero ELSE PanicRes, T2))
   /\ Emit(Case("new", "NullMagicScalar", "", <<>>, VZero, IF T2 \in MagicTypes THEN VZero ELSE PanicRes, T2))
 
-EmitGroup(g) ==
-  CASE g.c = "un"     -> EmitUn(g.op, g.t)
-    [] g.c = "self"   -> EmitSelf(g.t)
-    [] g.c = "setter" -> EmitSetter(g.t)
-    [] g.c = "cmp"    -> EmitCmp(g.t)
-    [] g.c = "ring"   -> EmitRing(g.op, g.t)
-    [] g.c = "math1"  -> EmitMath1(g.op, g.t)
-    [] g.c = "math2"  -> EmitMath2(g.op, g.t)
-    [] g.c = "param"  -> EmitParam(g.op, g.t)
-    [] g.c = "vec"    -> EmitVec(g.op, g.t)
-    [] g.c = "conv"   -> EmitConv(g.t)
-    [] g.c = "new"    -> EmitNew(g.t)
-
-(* ------------------------------------------------------------ state machine *)
-Meta == [g |-> "meta", intwidth |-> IntWidth, orders |-> <<0, 1, 2>>, seed |-> Seed, k |-> K,
-         types |-> TypeSeq, kinds |-> [i \in 1..16 |-> Kind(TypeSeq[i])]]
-Init == ph = "start" /\ grp = NoGrp
-Choose == ph = "start" /\ \E g \in Groups : ph' = "group" /\ grp' = g
-Expand == ph = "group" /\ EmitGroup(grp) /\ ph' = "done" /\ UNCHANGED grp
-Next == Choose \/ Expand
-Spec == Init /\ [][Next]_vars
-ASSUME Emit(Meta)
-
 (* --------------------- the contract checked on itself (evaluated once by TLC) *)
 SmallInts == {-300, -129, -128, -127, -3, -1, 0, 1, 2, 7, 100, 127, 128, 255, 256, 1000, 32767, 32768, 70000}
 ContractOK ==
@@ -350,5 +329,29 @@ ContractOK ==
   \* every grid value is in normal form and held by some type; the type table
   /\ \A i \in 1..NG : \E T \in AllTypes : Holds(T, G[i])
   /\ Cardinality(AllTypes) = 16 /\ \A T \in AllTypes : TypeSeq[TIdx(T)] = T
-ASSUME ContractOK
+
+EmitGroup(g) ==
+  CASE g.c = "contract" -> Assert(ContractOK, "ScalarTypes: the contract fails its own self-check")
+    [] g.c = "un"     -> EmitUn(g.op, g.t)
+    [] g.c = "self"   -> EmitSelf(g.t)
+    [] g.c = "setter" -> EmitSetter(g.t)
+    [] g.c = "cmp"    -> EmitCmp(g.t)
+    [] g.c = "ring"   -> EmitRing(g.op, g.t)
+    [] g.c = "math1"  -> EmitMath1(g.op, g.t)
+    [] g.c = "math2"  -> EmitMath2(g.op, g.t)
+    [] g.c = "param"  -> EmitParam(g.op, g.t)
+    [] g.c = "vec"    -> EmitVec(g.op, g.t)
+    [] g.c = "conv"   -> EmitConv(g.t)
+    [] g.c = "new"    -> EmitNew(g.t)
+
+(* ------------------------------------------------------------ state machine *)
+Meta == [g |-> "meta", intwidth |-> IntWidth, orders |-> <<0, 1, 2>>, seed |-> Seed, k |-> K,
+         types |-> TypeSeq, kinds |-> [i \in 1..16 |-> Kind(TypeSeq[i])]]
+Init == ph = "start" /\ grp = NoGrp
+Choose == ph = "start" /\ \E g \in Groups : ph' = "group" /\ grp' = g
+Expand == ph = "group" /\ EmitGroup(grp) /\ ph' = "done" /\ UNCHANGED grp
+Next == Choose \/ Expand
+Spec == Init /\ [][Next]_vars
+ASSUME Emit(Meta)
+
 =============================================================================
